@@ -398,6 +398,14 @@ def run_op(eng, op):
         return eng.evaluate_bounded(op[1], op[2], op[4], op[3])[0]
     if k == 'apiq':
         return eng.api_iter(op[1], op[2])
+    if k == 'compilefail':
+        # a compilation that dies half-way (in the clause compiler): nothing of it may stay behind, for
+        # this engine or any other
+        try:
+            compile_text(op[1])
+        except Exception:
+            return Sym('ok')
+        return Sym('compile-did-not-fail')
     if k == 'query_load':
         return eng.query_load(op[1], op[2], op[3], op[4], op[5])
     raise ValueError(op)
@@ -442,6 +450,8 @@ def scenario_model(ops, mode, fuel=4000):
             enc.append([Sym('eb'), op[1], op[2], Sym('none') if op[3] is None else op[3]] + list(op[4]))
         elif k == 'apiq':
             enc.append([Sym('query'), op[1], Sym('all')] + list(op[2]))
+        elif k == 'compilefail':
+            enc.append([Sym('loadfail')])
         elif k == 'query_load':
             # a call resolves at the moment it is made: the load performed while the query is
             # suspended does not change its answers; afterwards the load is in force
